@@ -327,6 +327,27 @@ fn oracle(prop: &str, rep: &mut Report, c: &EmitCase, em: &Emitted) {
             }
         }
         "C15" => {
+            // the base URL must survive regeneration over a customised lib.rs: hand-written text up to the
+            // `after` directive (without a default_http_client of its own) keeps the generated one
+            if fnv(&case) % 8 == 0 || c.features.iter().any(|f| f == "bundled") {
+                let text = serde_json::to_string(&c.doc).unwrap();
+                if let Ok(spec) = parse_spec(&text, true) {
+                    let d = fresh_dir("regen");
+                    let fresh = em.tree.get("src/lib.rs").map(|b| String::from_utf8_lossy(b).to_string()).unwrap_or_default();
+                    write_tree(&d, &em.tree);
+                    let prefix = "// my own preamble\nuse std::fmt::Debug;\n// libninja: after";
+                    std::fs::write(d.join("src/lib.rs"), format!("{prefix}\n{fresh}")).unwrap();
+                    for round in 1..=2 {
+                        if generate(&spec, &c.cfg, &d).is_err() { break; }
+                        let now = std::fs::read_to_string(d.join("src/lib.rs")).unwrap_or_default();
+                        let (a, b) = (summary::lib_rs(&now).unwrap_or_default(), summary::lib_rs(&fresh).unwrap_or_default());
+                        let base = |x: &str| sexp::parse(x).and_then(|s| s.as_list().and_then(|l| l.get(1).cloned())).map(|s| s.render()).unwrap_or_default();
+                        if base(&a) != base(&b) { rep.oracle_fail("baseUrlLostOnRegeneration", vec![], &case, &format!("after regeneration {round} over a customised lib.rs: {} instead of {}", base(&a), base(&b))); break; }
+                        rep.bump("c15_regenerations_ok");
+                    }
+                    let _ = std::fs::remove_dir_all(&d);
+                }
+            }
             // the default client's base URL expression
             if let Some(b) = em.tree.get("src/lib.rs") {
                 if let Ok(s) = summary::lib_rs(&String::from_utf8_lossy(b)) {
